@@ -44,7 +44,7 @@ class QConv2DBatchnorm(QConv2D):
       kernel_size,
       strides=(1, 1),
       padding="valid",
-      data_format="channels_last",
+      data_format=None,
       dilation_rate=(1, 1),
       activation=None,
       use_bias=True,
@@ -114,6 +114,7 @@ class QConv2DBatchnorm(QConv2D):
         kernel_size=kernel_size,
         strides=strides,
         padding=padding,
+        data_format=data_format,
         dilation_rate=dilation_rate,
         activation=activation,
         use_bias=use_bias,
